@@ -42,3 +42,24 @@ Theorem C04_stale_store_refuted :
   grad_with_store [:: 3; 5] [:: 2; 7] <> [:: 1596; 228].
 Proof. exact: stale_store_refuted. Qed.
 Print Assumptions C04_stale_store_refuted.
+
+(* ---- the drivers for the EXECUTABLE instance (coefficient lists of length D; what vm_compute runs): seeding one output with the
+   constant series 1 gives the gradient / Jacobian row, arbitrary seeds give the vector-Jacobian product, at every Taylor order d < D *)
+From AlgoV Require Import Series TracerExec TracerRefine MiscSpec.
+Theorem C04_exec_gradient_spec (K : fieldType) (D : nat) (t : tape (seq K)) o (xs dxs : seq (seq K)) :
+  all (@node_ok K D) t -> sized D xs -> sized D dxs ->
+  wf_tape (size xs) t -> size dxs = size xs -> (o < size t)%N && is_scal t o ->
+  forall d, (d < D)%N ->
+  (\sum_(i < size xs) Poly (nth [::] (X_grad D t [:: o] xs [:: constS 1 D]) i) * Poly (nth [::] dxs i))`_d
+  = (nth [::] (X_tangent_out D t [:: o] xs dxs) 0)`_d.
+Proof. exact: X_gradient_spec. Qed.
+Theorem C04_exec_vec_jac_spec (K : fieldType) (D : nat) (t : tape (seq K)) outs (xs dxs w : seq (seq K)) :
+  all (@node_ok K D) t -> sized D xs -> sized D dxs -> sized D w ->
+  wf_tape (size xs) t -> size dxs = size xs -> size w = size outs -> uniq outs ->
+  all (fun a => (a < size t)%N && is_scal t a) outs ->
+  forall d, (d < D)%N ->
+  (\sum_(i < size xs) Poly (nth [::] (X_grad D t outs xs w) i) * Poly (nth [::] dxs i))`_d
+  = (\sum_(j < size outs) Poly (nth [::] w j) * Poly (nth [::] (X_tangent_out D t outs xs dxs) j))`_d.
+Proof. exact: X_vec_jac_spec. Qed.
+Print Assumptions C04_exec_gradient_spec.
+Print Assumptions C04_exec_vec_jac_spec.
